@@ -20,7 +20,8 @@
      internal/backend/connector_updates.go applyMailboxCreated/applyMessagesCreated/applyUIDValidityBumped
         -> op_conn_create / op_conn_msgs / op_conn_bump ; internal/backend/user.go newUser -> op_restart
      internal/utils/message_hashmap.go Insert/Erase -> hash_known / s_hashes ; rfc822/hash.go GetMessageHash -> `hash`
-        (abstract: a Section variable of the theorems)
+        (abstract: a Section variable of the theorems; None = the hash cannot be computed, e.g. a text part
+        declared base64 that does not decode: such a message is stored without de-duplication)
 
    Where the code's behaviour depends on a structural fact that T1 extracts (position of a limit check, ...), the model
    takes it from the record `codefacts`; Props instantiate it with the facts regenerated from the working tree.
@@ -62,13 +63,14 @@ Record codefacts := mkFacts {
   cf_create_sum : bool;       (* Create checks count + number of mailboxes to create *)
   cf_rename_check : bool;     (* Rename checks the count for the mailboxes it creates *)
   cf_limit_norecover : bool;  (* Append does not fall back to the recovery mailbox on a limit error *)
-  cf_erase_late : bool        (* move out of recovery erases the hashes after the label step *)
+  cf_erase_late : bool;       (* move out of recovery erases the hashes after the label step *)
+  cf_raw_fallback : bool      (* MessageHashesMap.Insert tracks a literal without content hash by the hash of its bytes *)
 }.
 
 Definition facts_now : codefacts :=
   mkFacts fact_append_rechecks_in_write_tx fact_create_counts_new_mailboxes fact_rename_checks_count
-          fact_append_limit_error_skips_recovery fact_recovery_erase_after_add.
-Definition facts_fixed : codefacts := mkFacts true true true true true.
+          fact_append_limit_error_skips_recovery fact_recovery_erase_after_add fact_insert_falls_back_to_raw_hash.
+Definition facts_fixed : codefacts := mkFacts true true true true true true.
 
 (* ---- limits (true = refused) ---- *)
 Definition lim_count (c : cfg) (n : Z) : bool :=
@@ -213,7 +215,7 @@ Inductive op :=
 | ORestart.
 
 Section WithEnv.
-Variable hash : N -> N.
+Variable hash : N -> option N.   (* content hash; None: GetMessageHash fails for this literal *)
 Variable fx : codefacts.
 Variable c : cfg.
 Variable clock : nat -> Z.
@@ -221,11 +223,24 @@ Variable clock : nat -> Z.
 (* ---- recovery (actionCreateRecoveredMessage) ---- *)
 Definition hash_known (h : N) (s : store) : bool := existsb (fun e => N.eqb (snd e) h) (s_hashes s).
 (* returns (store, known) *)
+(* MessageHashesMap.Insert: the de-duplication key of a literal is its content hash (rfc822.GetMessageHash); when that
+   cannot be computed the key is the hash of the raw bytes ("raw:..." - distinct per distinct literal, disjoint from
+   the content hashes: modelled as odd / even numbers). Without the fallback (the code before a164a71) such a literal
+   has no key: Insert returns the error, the literal is never "known" and leaves no entry. *)
+Definition dkey (lit : N) : option N :=
+  match hash lit with
+  | Some h => Some (2 * h)%N
+  | None => if cf_raw_fallback fx then Some (2 * lit + 1)%N else None
+  end.
+Definition lit_known (lit : N) (s : store) : bool :=
+  match dkey lit with Some h => hash_known h s | None => false end.
+Definition hash_entry (id lit : N) : list (N * N) :=
+  match dkey lit with Some h => [(id, h)] | None => [] end.
 Definition recover (s : store) (lit : N) : store * bool :=
-  if hash_known (hash lit) s then (s, true)
+  if lit_known lit s then (s, true)
   else
     let id := s_nextmsg s in
-    let s1 := set_hashes (s_hashes s ++ [(id, hash lit)]) (bump_msg 1 s) in
+    let s1 := set_hashes (s_hashes s ++ hash_entry id lit) (bump_msg 1 s) in
     (ins_msgs recov_id [(id, lit)] s1, false).
 Definition erase_hashes (ids : list N) (s : store) : store :=
   set_hashes (filter (fun e => negb (nmem (fst e) ids)) (s_hashes s)) s.
@@ -483,8 +498,10 @@ Definition op_conn_bump (s : store) : store * result :=
 
 (* ---- restart: the database persists; lastUID and the hash map live in memory ---- *)
 Definition rebuild_hashes (rows : list row) : list (N * N) :=
-  fold_left (fun acc r => if existsb (fun e => N.eqb (snd e) (hash (snd (snd r)))) acc then acc
-                          else acc ++ [(fst (snd r), hash (snd (snd r)))]) rows [].
+  fold_left (fun acc r => match dkey (snd (snd r)) with
+                          | None => acc
+                          | Some h => if existsb (fun e => N.eqb (snd e) h) acc then acc else acc ++ [(fst (snd r), h)]
+                          end) rows [].
 Definition op_restart (s : store) : store * result :=
   let s0 := mkStore (s_mboxes s) (s_nextid s) (s_nextmsg s) 0 (s_tick s) [] (s_log s) in
   (* newUser: one Generate for GetOrCreateMailbox of the recovery mailbox (which exists) *)
